@@ -157,6 +157,7 @@ fn unit_specs_inner(prop: &str, mode: &str, seed: u64, unit: u64, world_arg: Opt
     match mode {
         "c07" => vec![c07_enum_spec(rs, unit)],
         "c06" => vec![c06_enum_spec(seed, unit)],
+        "sizes" => vec![sizes_enum_spec(rs, unit)],
         "c12" => vec![c12_enum_spec(rs, unit)],
         "c11" => vec![c11_enum_spec(rs, unit)],
         _ => {
@@ -165,6 +166,67 @@ fn unit_specs_inner(prop: &str, mode: &str, seed: u64, unit: u64, world_arg: Opt
             vec![gen_spec(prop, rs, &sh, cfg)]
         }
     }
+}
+
+/// Population sizes worth hitting exactly: everything small, and the neighbourhood of every
+/// power of two and of the multiples of 16 / 256 (chunked loops, narrowing casts, thresholds).
+pub fn sizes_list() -> Vec<u32> {
+    let mut v: Vec<u32> = (0..=72).collect();
+    for k in 5..=20u32 {
+        v.extend([k * 16 - 1, k * 16, k * 16 + 1]);
+    }
+    for k in 6..=13u32 {
+        v.extend([(1 << k) - 1, 1 << k, (1 << k) + 1]);
+    }
+    for k in 1..=8u32 {
+        v.extend([k * 256 - 1, k * 256, k * 256 + 1]);
+    }
+    v.extend([1000, 1500, 3000, 5000]);
+    v.sort();
+    v.dedup();
+    v
+}
+
+/// One population of exactly n entities in one archetype (optionally after scattered removals
+/// and refills that bring it back to exactly n), every iteration path, a fork, and then every
+/// world dropped with exactly that population (no refill: `crash_after`).
+pub fn sizes_enum_spec(rs: u64, unit: u64) -> RunSpec {
+    let sizes = sizes_list();
+    let n = sizes[(unit % sizes.len() as u64) as usize];
+    let variant = unit / sizes.len() as u64;
+    let mut rng = crate::gen::Rng::new(rs);
+    let (world, narch): (&str, u64) = if variant % 7 == 6 { ("W16", 2) } else { ("WA", 6) };
+    let a = (variant % narch) as u8;
+    let mut ops = Vec::new();
+    ops.push(Op::Bulk { a, n, p: rng.next() });
+    if (variant / narch) % 2 == 1 && n > 2 {
+        // churn that returns to exactly n: destroy every k-th, create the same number again
+        let stride = 2 + rng.below(5) as u32;
+        let phase = rng.below(stride as u64) as u32;
+        ops.push(Op::BulkDestroy { a, stride, phase });
+        let removed = (0..n).filter(|i| (i + phase) % stride == 0).count() as u32;
+        ops.push(Op::Bulk { a, n: removed, p: rng.next() });
+    }
+    for p in SPATHS {
+        ops.push(Op::Scan { a, path: p, w: None });
+    }
+    let nsites = if world == "WA" { 7 } else { 2 };
+    for site in 0..nsites {
+        ops.push(Op::Query { site, mac: QMacro::Iter, key: None, plan: vec![], dp: None });
+        ops.push(Op::Query { site, mac: QMacro::IterBorrow, key: None, plan: vec![], dp: None });
+    }
+    ops.push(Op::CloneWorld { panic_at: None, probe: None });
+    ops.push(Op::Switch { n: 1 });
+    ops.push(Op::Scan { a, path: SPATHS[(variant % 7) as usize], w: None });
+    let cap = match rng.below(3) {
+        0 => 0,
+        1 => n,
+        _ => rng.below(8) as u32,
+    };
+    let mut caps = vec![0u32; narch as usize];
+    caps[a as usize] = cap;
+    let len = ops.len() as u32;
+    RunSpec { world: world.into(), caps, ops, crash_after: Some(len) }
 }
 
 pub const C06_COMBOS: u64 = 7 * 2 * 13;
